@@ -88,6 +88,42 @@ Flatten(own, i, acc) == IF i > Len(own) THEN acc
 Visible(env) == Flatten(env.own, 1, env.cap)
 
 -----------------------------------------------------------------------------
+(* free variables of a function literal: what it captures.  A function that *)
+(* captures nothing is not a closure (C07).                                   *)
+RECURSIVE FVE(_), FVSeq(_, _), FVB(_, _, _), FVS(_, _)
+FVSeq(es, i) == IF i > Len(es) THEN {} ELSE FVE(es[i]) \cup FVSeq(es, i + 1)
+FVFn(f) == FVB(f.b, 1, {f.ps[k].n : k \in 1..Len(f.ps)} \cup {"self"})
+FVE(e) ==
+    CASE e.k = "var" -> {e.n}
+      [] e.k \in {"neg", "not", "get", "typeof"} -> FVE(e.e)
+      [] e.k = "bin" -> FVE(e.l) \cup FVE(e.r)
+      [] e.k = "list" -> FVSeq(e.es, 1)
+      [] e.k = "idx" -> FVE(e.o) \cup FVE(e.i)
+      [] e.k = "call" -> FVE(e.f) \cup FVSeq(e.args, 1)
+      [] e.k = "mcall" -> FVE(e.o) \cup FVSeq(e.args, 1)
+      [] e.k = "fld" -> FVE(e.o)
+      [] e.k = "new" -> {e.cls} \cup FVSeq(e.args, 1)
+      [] e.k = "or" -> FVE(e.e) \cup FVE(e.d)
+      [] e.k = "unwrapinto" -> FVE(e.e)
+      [] e.k = "fn" -> FVFn(e)
+      [] OTHER -> {}
+Declares(s) == IF s.k = "let" /\ ~s.mod THEN {s.n}
+               ELSE IF s.k = "expr" /\ s.e.k = "unwrapinto" THEN {s.e.n} ELSE {}
+FVS(s, bound) ==
+    CASE s.k = "let" -> (FVE(s.e) \cup (IF s.mod THEN {s.n} ELSE {})) \ bound
+      [] s.k \in {"print", "assert", "expr"} -> FVE(s.e) \ bound
+      [] s.k = "ret" -> FVSeq(s.e, 1) \ bound
+      [] s.k = "if" -> (FVE(s.c) \ bound) \cup FVB(s.t, 1, bound) \cup FVB(s.e, 1, bound)
+      [] s.k = "while" -> (FVE(s.c) \ bound) \cup FVB(s.b, 1, bound)
+      [] s.k = "from" -> ((FVE(s.a) \cup FVE(s.z) \cup FVSeq(s.step, 1)) \ bound)
+                         \cup FVB(s.b, 1, bound \cup (IF s.n = "" THEN {} ELSE {s.n}))
+      [] s.k = "assign" -> (FVE(s.target) \cup FVE(s.e)) \ bound
+      [] OTHER -> {}
+FVB(ss, i, bound) == IF i > Len(ss) THEN {} ELSE FVS(ss[i], bound) \cup FVB(ss, i + 1, bound \cup Declares(ss[i]))
+
+Capture(f, env) == LET vis == Visible(env) fv == FVFn(f) \cap DOMAIN vis IN [n \in fv |-> vis[n]]
+
+-----------------------------------------------------------------------------
 (* state *)
 St0 == [cells |-> <<>>, lists |-> <<>>, maps |-> <<>>, objs |-> <<>>, out |-> <<>>,
         status |-> "ok", retv |-> VNil, hasret |-> FALSE, fuel |-> 4000, stack |-> <<"module">>,
@@ -228,7 +264,7 @@ Eval(e, env, st) ==
                         (IF i.v.v < 0 \/ i.v.v >= Len(o.v.s) THEN R(VNil, FailWith(i.st, "index"))
                          ELSE R(VStr(SubSeq(o.v.s, i.v.v + 1, i.v.v + 1)), i.st))
                 ELSE R(VNil, FailWith(i.st, "type"))
-      [] e.k = "fn" -> R(VFn(e, Visible(env), 0), st)
+      [] e.k = "fn" -> R(VFn(e, Capture(e, env), 0), st)
       [] e.k = "call" ->
            LET f == Eval(e.f, env, st) IN
            IF ~IsOk(f.st) THEN f
